@@ -63,6 +63,7 @@ def shapes():
         ('ss|s|rr/3', 3, ['ss', 's', 'rr']),
         ('send|send|send/3', 3, ['s', 's', 's']),
         ('sr|rs|s/4', 4, ['sr', 'rs', 's']),
+        ('aba', 2, ['s', 'sss', 'rrrr']),
     ]
 
 
@@ -106,6 +107,15 @@ def gen(seed, tier):
                 sc = [(first, 0)] * i + [(1 - first, 0)] * j + [(first, 0)] * l
                 sc = [(a, 1 if rnd.random() < 0.12 else 0) for a, _ in sc]
                 scen.append(build(name, nsetup, acts, sc))
+        if name == 'aba':
+            # a sender parked inside its enqueue while the others turn the ring: receiver ops, sender ops, receiver ops
+            # (whole operations: 6 steps each), then the parked sender goes on - the head index can be the same again
+            # although the queue got shorter
+            for i in range(0, 7):
+                for a in (0, 6, 12):
+                    for b in (0, 6, 12, 18):
+                        for c in (0, 6, 12):
+                            scen.append(build(name, nsetup, acts, [(0, 0)] * i + [(2, 0)] * a + [(1, 0)] * b + [(2, 0)] * c + [(0, 0)] * 10 + [(1, 0)] * 30 + [(2, 0)] * 30))
         for _ in range(per * 2):
             ln = rnd.randint(3, 10 * n)
             sched = []
